@@ -8,12 +8,21 @@ from ..models import integrate as I
 from ..models import search as S
 
 RULES = ["trapezoid", "rectangle"]
+GSHARE = 0.0      # share of the GLOBAL magnitude admitted into every interval's scale: none (see judge_c01)
 ALPHAS = [0.25, 0.5, 1.0, 2.0, 3.7]
 
 
 # ------------------------------------------------------------------------------------------ generation
-def _pick_fixed(rng, m, hug_ends=None):
+def _pick_fixed(rng, m, hug_ends=None, many=False):
     """sorted fixed indices with gaps >= 2 (at least one interior sample per interval)"""
+    if many:        # 70..260 fixed points on every second sample slot
+        k = many
+        idx = np.sort(rng.choice(np.arange((m + 1) // 2), size=k, replace=False)) * 2
+        if hug_ends or (hug_ends is None and rng.integers(0, 3) == 0):
+            idx[0] = 0
+            if (m - 1) - idx[-2] >= 2:
+                idx[-1] = m - 1
+        return [int(i) for i in idx]
     kmax = (m - 1) // 2 + 1
     k = int(rng.integers(2, max(3, min(kmax, 12) + 1)))
     k = min(k, kmax)
@@ -40,19 +49,31 @@ def _gap(x, i, side):
     return x[i + 1] - x[i] if i < len(x) - 1 else None
 
 
-def gen_case(rng, max_m=1000, small=False, weaver=False):
-    """Build one admissible matching problem.  Returns a dict with everything needed to call the code."""
-    if small:
+def gen_case(rng, max_m=1000, small=False, weaver=False, large=False):
+    """Build one admissible matching problem.  Returns a dict with everything needed to call the code.
+    large: a week of hourly averages against minute samples - thousands of samples x a hundred or more reference
+    points (len(x) * len(x_ref) well above 2**20), the sizes the library is used at"""
+    many = 0
+    if large:
+        many = int(rng.integers(70, 261))
+        m = int(rng.integers(max(5000, int(1.1 * 2 ** 20 / many)), 18001))
+    elif small:
         m = int(rng.integers(3, 9))
     else:
         m = int(min(max_m, max(3, round(math.exp(rng.uniform(math.log(3), math.log(max_m)))))))
     x, xc = gen.gen_x(rng, m)
+    if m <= 80 and rng.integers(0, 12) == 0:
+        mixed = gen.mixed_steps_x(rng, m)
+        if mixed is not None:
+            x, xc = mixed
     y, yc = gen.gen_y(rng, m)
-    idx = _pick_fixed(rng, m, hug_ends=True if weaver else None)
+    idx = _pick_fixed(rng, m, hug_ends=True if weaver else None, many=many)
     K = len(idx)
     weaver = weaver and idx[0] == 0 and idx[-1] == m - 1
     mode = ["search", "positions", "indices"][int(rng.integers(0, 3))]
     strategy = ["closest", "lower", "higher"][int(rng.integers(0, 3))]
+    if large and rng.integers(0, 2):
+        mode, strategy = ("search", "closest") if rng.integers(0, 2) else ("positions", strategy)
     on_grid = True if weaver else bool(rng.integers(0, 2))
     xr = np.array([x[i] for i in idx], dtype=float)
     extras = 0
@@ -109,6 +130,23 @@ def gen_case(rng, max_m=1000, small=False, weaver=False):
         y_ref = np.abs(y_ref) / max(np.max(np.abs(y_ref)), 1e-300) * 5e-9
     elif yc == "large":
         y_ref = y_ref / max(np.max(np.abs(y_ref)), 1e-300) * 5e8
+    burst = None
+    if len(x_ref) >= 4 and rng.integers(0, 8) == 0:
+        # "burst then idle": one stretch of the reference (or of the input) is many orders of magnitude above the
+        # rest of the SAME series - every interval's integral is its own, whatever its neighbours carry
+        L = float(rng.choice([1e7, 1e9, 1e12, 2.0 ** 55]))
+        which = int(rng.integers(0, 3))
+        burst = {"level": L, "in": ["reference", "input", "both"][which]}
+        if which in (0, 2):
+            p = int(rng.integers(0, len(x_ref) - 2))
+            q = p + int(rng.integers(1, 3))
+            y_ref = np.array(y_ref, dtype=float)
+            y_ref[p:q] = (np.abs(y_ref[p:q]) / max(float(np.max(np.abs(y_ref))), 1e-300) + 1.0) * L
+        if which in (1, 2):
+            p = int(rng.integers(0, m - 2))
+            q = p + int(rng.integers(1, max(2, m // 4)))
+            y = np.array(y, dtype=float)
+            y[p:q] = (np.abs(y[p:q]) / max(float(np.max(np.abs(y))), 1e-300) + 1.0) * L
     alpha = float(ALPHAS[int(rng.integers(0, 5))]) if rng.integers(0, 4) else float(rng.uniform(0.1, 6.0))
     perm = None
     if mode != "search" and rng.integers(0, 3) == 0:
@@ -118,7 +156,7 @@ def gen_case(rng, max_m=1000, small=False, weaver=False):
     case = {"x": x, "y": y, "x_ref": x_ref, "y_ref": y_ref, "idx": idx, "mode": mode, "strategy": strategy, "perm": perm,
             "on_grid": on_grid, "extras": extras, "alpha": alpha,
             "target_rule": RULES[int(rng.integers(0, 2))], "ref_rule": RULES[int(rng.integers(0, 2))],
-            "xcls": xc, "ycls": yc, "m": m, "K": K, "weaver": bool(weaver),
+            "xcls": xc, "ycls": yc, "burst": burst, "m": m, "K": K, "weaver": bool(weaver),
             "omit_defaults": bool(rng.integers(0, 2)), "strategy_with_explicit": bool(rng.integers(0, 2))}
     return case
 
@@ -229,17 +267,22 @@ def judge_c01(ctx, cid, case, res, fi, ri):
     nontrivial = False
     tot_res = tot_ref = tot_scale = 0.0
     # end weights of neighbouring stretches vanish only to rounding: an all-zero interval next to large values
-    # legitimately carries ~eps of them, hence a small share of the global magnitude in every scale
+    # legitimately carries ~eps of them.  That is bounded LOCALLY by end_leak (this interval and its two neighbours);
+    # an earlier version also admitted 1e-3 of the global magnitude into every scale, which hid errors that travel
+    # across intervals (a running total carried from a large interval into small ones far away)
     gmag = max(max(abs(v) for v in res), max(abs(v) for v in y), max(abs(v) for v in yr))
     yhat = yhat_estimates(case, res, fi)
     ok = True
+    xa = np.asarray(x, dtype=float)
     for k in range(len(fi) - 1):
         a, b = fi[k], fi[k + 1]
+        # conditioning of this interval and of the two it shares a fixed point with (not of the whole grid)
+        rel = tol.REL + tol.cond_local(xa, fi[max(k - 1, 0)], fi[min(k + 2, len(fi) - 1)])
         got = I.integ(x, res, a, b, case["target_rule"])
         want = I.integ(xr, yr, ri[k], ri[k + 1], case["ref_rule"])
         before = I.integ(x, y, a, b, case["target_rule"])
         sc = (I.scale(x, res, a, b, case["target_rule"]) + I.scale(xr, yr, ri[k], ri[k + 1], case["ref_rule"])
-              + I.scale(x, y, a, b, case["target_rule"]) + 1e-3 * gmag * (x[b] - x[a]))
+              + I.scale(x, y, a, b, case["target_rule"]) + GSHARE * gmag * (x[b] - x[a]))
         # the two end samples of the interval may carry rounding leakage of this and the neighbouring stretches
         leak = (end_leak(case, fi, yhat, k - 1) + 2 * end_leak(case, fi, yhat, k) + end_leak(case, fi, yhat, k + 1)) \
             * (x[b] - x[a])
@@ -258,7 +301,7 @@ def judge_c01(ctx, cid, case, res, fi, ri):
         got = I.integ(x, res, fi[0], fi[-1], case["target_rule"])
         want = I.integ(xr, yr, ri[0], ri[-1], case["ref_rule"])
         leak = sum(4 * end_leak(case, fi, yhat, k) * (x[fi[k + 1]] - x[fi[k]]) for k in range(len(fi) - 1))
-        if not abs(got - want) <= rel * max(tot_scale, abs(want)) + leak:
+        if not abs(got - want) <= tol.rel_for(x) * max(tot_scale, abs(want)) + leak:
             ctx.violation("total_integral", cid, {"got": got, "want": want, "scale": tot_scale, "case": brief(case)})
     return nontrivial
 
@@ -317,7 +360,7 @@ def judge_c03(ctx, cid, case, res, fi, ri):
 
 def brief(case):
     d = {k: case[k] for k in ("mode", "strategy", "on_grid", "extras", "alpha", "target_rule", "ref_rule", "xcls",
-                              "ycls", "m", "K", "idx", "weaver", "perm") if k in case}
+                              "ycls", "burst", "m", "K", "idx", "weaver", "perm") if k in case}
     if case["m"] <= 24:
         d.update({"x": case["x"], "y": case["y"], "x_ref": case["x_ref"], "y_ref": case["y_ref"]})
     return d
